@@ -6,7 +6,11 @@ is run on the regenerated Cuckoo/Gen/Sync.lean.  A *harmful* mutation (breaks a 
 translator or the build fail; a *harmless* one (rename, comment, assert, debug macro, reformatting, extra local,
 hook lines removed, lock_all from begin()) must pass.
 
-usage: syncskel_selftest.py [repo=/repo] [lean_dir=/tmp/agB/lean] [scratch=/tmp/agB/scratch/selftest]
+Three groups of cases: the seeded mutations (harmful ones must be caught), further behaviour-preserving refactorings
+written here, and every `*.diff` of the harmless-patch directory (applied alone with `git apply`; must pass).
+
+usage: syncskel_selftest.py [repo=/repo] [lean_dir=/tmp/agB2/lean] [scratch=/tmp/agB2/selftest] [harmless_dir=/tmp/harmless_all]
+(SELFTEST_ONLY=<substring> restricts the run to the cases whose name contains it.)
 The generated file of lean_dir is restored (re-generated from the unmodified repo) at the end.
 """
 import os
@@ -100,8 +104,10 @@ def m_drop_dup_guard(s):
 
 
 def m_run_cuckoo_late_load(s):
-    return sub1(s, "    const ResizeCounter resize_counter = load_resize_counter();\n    b.unlock();\n",
-                "    b.unlock();\n    const ResizeCounter resize_counter = load_resize_counter();\n")
+    def f(b):
+        b = sub1(b, "    const ResizeCounter resize_counter = load_resize_counter();\n", "")
+        return sub1(b, "    b.unlock();\n", "    b.unlock();\n    const ResizeCounter resize_counter = load_resize_counter();\n")
+    return in_body(s, "cuckoo_status run_cuckoo(TwoBuckets &b, size_type &insert_bucket,", f)
 
 
 def m_check_no_unlock(s):
@@ -194,6 +200,121 @@ def m_no_hooks(s):
     return re.sub(r"#if[^\n]*LIBCUCKOO_VERIF[^\n]*\n.*?#else\n(.*?)#endif\n", r"\1", s, flags=re.S)
 
 
+# ---- further harmful mutations aimed at the semantic (execution-based) checks ------------------------------------
+
+def m_unlocker_stops_early(s):
+    return sub1(s, "for (auto it = first_locked; it != map->all_locks_.end(); ++it)",
+                "for (auto it = first_locked; it != std::prev(map->all_locks_.end()); ++it)")
+
+
+def m_born_partly_locked(s):
+    return sub1(s, "    for (spinlock &lock : new_locks) {\n      lock.lock();\n    }\n",
+                "    for (size_t i = 1; i < new_locks.size(); ++i) {\n      new_locks[i].lock();\n    }\n")
+
+
+def m_validate_other_lock(s):
+    return in_body(s, LOCK_TWO, lambda b: sub1(b, "check_resize_counter(resize_counter, locks[l1]);", "check_resize_counter(resize_counter, locks[l2]);"))
+
+
+def m_path_move_unlock_on_success(s):
+    return sub1(s, "        return true;\n      } else {\n        b.unlock();\n        return false;\n      }\n",
+                "        b.unlock();\n        return true;\n      } else {\n        return false;\n      }\n")
+
+
+def m_lock_two_max_first(s):
+    def f(b):
+        b = sub1(b, "    if (l2 < l1) {\n      std::swap(l1, l2);\n    }\n", "")
+        b = sub1(b, "size_type l1 = lock_ind(i1);", "const size_type l1 = std::max(lock_ind(i1), lock_ind(i2));")
+        return sub1(b, "size_type l2 = lock_ind(i2);", "const size_type l2 = std::min(lock_ind(i1), lock_ind(i2));")
+    return in_body(s, LOCK_TWO, f)
+
+
+def m_fast_double_return_without_bump(s):
+    return in_body(s, FAST, lambda b: sub1(b, "      num_remaining_lazy_rehash_locks(0);\n    } else {\n",
+                                           "      num_remaining_lazy_rehash_locks(0);\n      return ok;\n    } else {\n"))
+
+
+MORE_HARMFUL = [
+    ("AllUnlocker stops one array early", True, m_unlocker_stops_early),
+    ("maybe_resize_locks: the first new lock is not taken", True, m_born_partly_locked),
+    ("lock_two: validates the other lock", True, m_validate_other_lock),
+    ("cuckoopath_move: unlock on the success path, not on failure", True, m_path_move_unlock_on_success),
+    ("lock_two: ordered by max/min the wrong way round", True, m_lock_two_max_first),
+    ("fast_double: one branch returns ok without the bump", True, m_fast_double_return_without_bump),
+]
+
+# ---- further behaviour-preserving refactorings (own) --------------------------------------------------------------
+
+def r_lock_two_bool_guard(s):
+    return in_body(s, LOCK_TWO, lambda b: sub1(b, "    if (l2 != l1) {\n      locks[l2].lock();\n    }\n",
+                                               "    const bool distinct_stripes = !(l1 == l2);\n    if (distinct_stripes) {\n      locks[l2].lock();\n    }\n"))
+
+
+def r_snapshot_for_ever(s):
+    j, k = body_of(s, "TwoBuckets snapshot_and_lock_two(const hash_value &hv) const")
+    return s[:j] + sub1(s[j:k], "while (true) {", "for (;;) {") + s[k:]
+
+
+def r_check_named_load(s):
+    return sub1(s, "    if (load_resize_counter() != resize_counter) {\n",
+                "    const ResizeCounter now = load_resize_counter();\n    const bool unchanged = now == resize_counter;\n    if (!unchanged) {\n")
+
+
+def r_unlocker_index_loop(s):
+    return sub1(s, "        for (spinlock &lock : locks) {\n          lock.unlock();\n        }\n",
+                "        for (size_t i = 0; i < locks.size(); ++i) {\n          locks[i].unlock();\n        }\n")
+
+
+def r_rehash_nested_if(s):
+    j, k = body_of(s, "template <bool IS_LAZY> void rehash_lock(size_t l) const noexcept")
+    b = s[j:k]
+    b = sub1(b, "    if (lock.is_migrated())\n      return;\n", "    if (!lock.is_migrated()) {\n")
+    b = b[:b.rindex("}")] + "}\n  }"
+    return s[:j] + b + s[k:]
+
+
+def r_run_cuckoo_loads_swapped(s):
+    def f(b):
+        b = sub1(b, "    const size_type hp = hashpower();\n", "")
+        return sub1(b, "    const ResizeCounter resize_counter = load_resize_counter();\n",
+                    "    const ResizeCounter resize_counter = load_resize_counter();\n    const size_type hp = hashpower();\n")
+    return in_body(s, "cuckoo_status run_cuckoo(TwoBuckets &b, size_type &insert_bucket,", f)
+
+
+def r_maybe_resize_iterator_loop(s):
+    return sub1(s, "    for (spinlock &lock : new_locks) {\n      lock.lock();\n    }\n",
+                "    for (auto it = new_locks.begin(); it != new_locks.end(); ++it) {\n      it->lock();\n    }\n")
+
+
+def r_fast_double_nested(s):
+    def f(b):
+        b = sub1(b, "    if (st != ok) {\n      return st;\n    }\n", "    if (st == ok) {\n")
+        return sub1(b, "    resize_counter_.fetch_add(1, std::memory_order_release);\n\n    return ok;\n",
+                    "    resize_counter_.fetch_add(1, std::memory_order_release);\n    }\n    return st;\n")
+    return in_body(s, FAST, f)
+
+
+def r_lock_one_no_ref(s):
+    j, k = body_of(s, "LockManager lock_one(ResizeCounter resize_counter, size_type i,")
+    b = s[j:k]
+    b = sub1(b, "    spinlock &lock = locks[l];\n    lock.lock();\n    check_resize_counter(resize_counter, lock);\n",
+             "    locks[l].lock();\n    check_resize_counter(resize_counter, locks[l]);\n")
+    b = sub1(b, "return LockManager(&lock);", "return LockManager(&locks[l]);")
+    return s[:j] + b + s[k:]
+
+
+OWN_REFACTORINGS = [
+    ("lock_two: duplicate guard through a const bool", False, r_lock_two_bool_guard),
+    ("snapshot_and_lock_two: for (;;) instead of while (true)", False, r_snapshot_for_ever),
+    ("check_resize_counter: named load + negated bool", False, r_check_named_load),
+    ("AllUnlocker: index loop over the array", False, r_unlocker_index_loop),
+    ("rehash_lock: nested if instead of early return", False, r_rehash_nested_if),
+    ("run_cuckoo: the two loads in the other order (validated hold)", False, r_run_cuckoo_loads_swapped),
+    ("maybe_resize_locks: iterator loop", False, r_maybe_resize_iterator_loop),
+    ("fast_double: nested if (st == ok) { ... } return st", False, r_fast_double_nested),
+    ("lock_one: no reference local", False, r_lock_one_no_ref),
+]
+
 MUTATIONS = [
     # (name, harmful?, function)
     ("baseline (unmodified source)", False, lambda s: s),
@@ -229,22 +350,49 @@ MUTATIONS = [
 ]
 
 
+def prepare_tree(repo, tree):
+    shutil.rmtree(tree, ignore_errors=True)
+    os.makedirs(tree)
+    for d in ("libcuckoo", "libcuckoo-c"):
+        if os.path.isdir(os.path.join(repo, d)):
+            shutil.copytree(os.path.join(repo, d), os.path.join(tree, d))
+
+
 def main():
     repo = sys.argv[1] if len(sys.argv) > 1 else "/repo"
-    lean = sys.argv[2] if len(sys.argv) > 2 else "/tmp/agB/lean"
-    scratch = sys.argv[3] if len(sys.argv) > 3 else "/tmp/agB/scratch/selftest"
+    lean = sys.argv[2] if len(sys.argv) > 2 else "/tmp/agB2/lean"
+    scratch = sys.argv[3] if len(sys.argv) > 3 else "/tmp/agB2/selftest"
+    hdir = sys.argv[4] if len(sys.argv) > 4 else "/tmp/harmless_all"
+    only = os.environ.get("SELFTEST_ONLY")          # substring filter, for quick runs
     gen = os.path.join(lean, "Cuckoo", "Gen", "Sync.lean")
     src = open(os.path.join(repo, "libcuckoo", "cuckoohash_map.hh")).read()
+    cases = []                                        # (name, harmful?, how to fill the tree)
+    for name, harmful, f in MUTATIONS + MORE_HARMFUL + OWN_REFACTORINGS:
+        def fill(tree, f=f):
+            with open(os.path.join(tree, "libcuckoo", "cuckoohash_map.hh"), "w") as fh:
+                fh.write(f(src))
+        cases.append((name, harmful, fill))
+    if os.path.isdir(hdir):
+        for d in sorted(x for x in os.listdir(hdir) if x.endswith(".diff")):
+            def fill(tree, d=d):
+                q = subprocess.run(["git", "apply", os.path.join(hdir, d)], cwd=tree, stdout=subprocess.PIPE,
+                                   stderr=subprocess.STDOUT, universal_newlines=True)
+                if q.returncode != 0:
+                    raise SystemExit("selftest: %s does not apply: %s" % (d, q.stdout.strip()[:200]))
+            desc = ""
+            txt = os.path.join(hdir, d[:-5] + ".txt")
+            if os.path.exists(txt):
+                desc = open(txt).read().strip().split("\n")[0][:60]
+            cases.append(("patch %s: %s" % (d[:-5], desc), False, fill))
     rows = []
     bad = 0
     try:
-        for n, (name, harmful, f) in enumerate(MUTATIONS):
+        for n, (name, harmful, fill) in enumerate(cases):
+            if only and only not in name:
+                continue
             tree = os.path.join(scratch, "m%02d" % n)
-            shutil.rmtree(tree, ignore_errors=True)
-            os.makedirs(tree)
-            shutil.copytree(os.path.join(repo, "libcuckoo"), os.path.join(tree, "libcuckoo"))
-            with open(os.path.join(tree, "libcuckoo", "cuckoohash_map.hh"), "w") as fh:
-                fh.write(f(src))
+            prepare_tree(repo, tree)
+            fill(tree)
             t0 = time.time()
             p = subprocess.run([sys.executable, os.path.join(HERE, "syncskel.py"), tree, gen, os.path.join(tree, "scratch")],
                                stdout=subprocess.PIPE, stderr=subprocess.STDOUT, universal_newlines=True)
@@ -267,15 +415,15 @@ def main():
                             k -= 1
                         mm = re.match(r"theorem\s+(\w+)", lines[k]) if k >= 0 else None
                         failed.append(mm.group(1) if mm else "line %d" % ln)
-                    why = ", ".join(dict.fromkeys(failed))
+                    why = ", ".join(dict.fromkeys(failed)) or q.stdout.strip().splitlines()[-1][:150]
             ok = (outcome != "pass") == harmful
             bad += 0 if ok else 1
-            rows.append((name, "harmful" if harmful else "harmless", outcome, "OK" if ok else "UNEXPECTED", "%.1fs" % (t1 - t0), why))
-            print("%-68s %-8s %-15s %-10s %s  %s" % rows[-1], flush=True)
+            rows.append((name[:84], "harmful" if harmful else "harmless", outcome, "OK" if ok else "UNEXPECTED", "%.1fs" % (t1 - t0), why))
+            print("%-84s %-8s %-15s %-10s %s  %s" % rows[-1], flush=True)
     finally:
         subprocess.run([sys.executable, os.path.join(HERE, "syncskel.py"), repo, gen, scratch], stdout=subprocess.PIPE)
         subprocess.run(["lake", "build", "Cuckoo.Props.C01Sync"], cwd=lean, stdout=subprocess.PIPE, stderr=subprocess.STDOUT)
-    print("%d mutations, %d unexpected outcomes" % (len(rows), bad))
+    print("%d cases, %d unexpected outcomes" % (len(rows), bad))
     sys.exit(1 if bad else 0)
 
 
